@@ -939,6 +939,28 @@ func aliasTarget(addr ssa.Value) ssa.Value {
 		}
 	}
 	if ld, ok := val.(*ssa.UnOp); ok && ld.Op == token.MUL {
+		// a copy of another local that is itself assigned exactly once (x2 := x): the same value for good
+		if src, isAl := ld.X.(*ssa.Alloc); isAl && src != cell {
+			ns := 0
+			for _, ref := range referrers(src) {
+				if st, ok := ref.(*ssa.Store); ok && st.Addr == ssa.Value(src) {
+					ns++
+				}
+			}
+			closureWrites := false
+			for _, f := range WithAnon(src.Parent())[1:] {
+				eachInstr(f, func(in ssa.Instruction) {
+					if st, ok := in.(*ssa.Store); ok {
+						if fv, ok := st.Addr.(*ssa.FreeVar); ok && fv.Name() == src.Comment {
+							closureWrites = true
+						}
+					}
+				})
+			}
+			if ns == 1 && !closureWrites {
+				return val
+			}
+		}
 		if fa, isFA := ld.X.(*ssa.FieldAddr); isFA {
 			if refTyped {
 				return val
@@ -2088,7 +2110,6 @@ func holdsAtOrViaFlag(b *ssa.BasicBlock, pred func(facts []canonCond) bool) bool
 	}
 	return false
 }
-
 
 // canonPath is pathOf with the fields of state structs built in place (tm := &state{mm: x}) replaced by the
 // values they were constructed with: "tm.mm.Timers" and "x.Timers" denote the same collection.  Used where two
